@@ -382,6 +382,12 @@ def ingest_models(ctx):
         res = f0.result()
         rs = [f.result() for f in fs]
     ctx.add_tlc("Ingest (every step with a failing twin; FailedIngestInvisible, NoPartialPackUsed, SuccessIsConsistent)", res)
+    rf = tlc.run("IngestFetch.tla", "IngestFetch_mc.cfg", workers=1, timeout=300)
+    ctx.add_tlc("IngestFetch (a transfer as a transaction over objects, shallow and refs; FailedTransferInvisible, SuccessIsComplete)", rf)
+    rfn = tlc.run("IngestFetch.tla", "IngestFetch_neg_shallowfirst.cfg", workers=1, timeout=300)
+    ctx.add_tlc("IngestFetch_neg_shallowfirst.cfg (negative control: shallow recorded before the pack is ingested)", rfn, require_ok=False)
+    if "FailedTransferInvisible" not in rfn.violated:
+        raise MachineryError("negative control IngestFetch_neg_shallowfirst did not find FailedTransferInvisible\n" + rfn.output[-1500:])
     rh = tlc.run("IngestHandle.tla", "IngestHandle_mc.cfg", workers=1, timeout=300)
     ctx.add_tlc("IngestHandle (cached reader accessed repeatedly after a failed read; RepeatContained, NothingLost)", rh)
     rn = tlc.run("IngestHandle.tla", "IngestHandle_neg_tagfirst.cfg", workers=1, timeout=300)
@@ -626,6 +632,12 @@ def damage_cases(ctx, base):
     cases, meta, per_art = [], {}, {}
     for name, art, level in damage_plan(ctx):
         muts = L.mutations(len(art["data"]), level)
+        if art["kind"] == "midx":
+            # crafted: the recorded offset of one object redirected to the start of another object of the same pack
+            n = L.midx_object_count(art["data"])
+            muts += [("redir", i, j) for i in range(n) for j in range(n) if i != j]
+        if art["kind"] == "idx":
+            muts.append(("splice", 0, 0))     # the intact index over another pack of the same layout
         per_art[name] = (level, len(muts))
         for m in muts:
             cid = base + len(cases)
@@ -680,11 +692,15 @@ def damage_results(ctx, judge, cases, meta, per_art, results):
                 bad = 0
                 if rk == "verified" and e["outcome"] == "ok":
                     if kind == "idx":
-                        bad = 1                      # a damaged pack index passed load + check()
+                        bad = 0 if m[0] == "splice" else 1      # a damaged pack index passed load + check()
                     elif kind == "loose":
                         bad = 0 if (v and v.get("hash_ok")) else 1
                     elif kind == "index":
                         bad = 0 if (v and v.get("same")) else 1
+                elif kind == "loose" and e["outcome"] == "ok":
+                    bad = 0 if (v and v.get("hash_ok")) else 1   # get_raw / from_path: what is returned hashes to the name
+                elif kind == "midx" and rk == "use" and e["outcome"] == "ok":
+                    bad = int((v or {}).get("misnamed", 0))       # object served == object named, for every object
                 ev = {"outcome": e["outcome"], "exc": e.get("exc"), "msg": e.get("msg"), "wall_ms": e.get("wall_ms", 0), "read": rk, "value": v}
                 o = judge.obs(ev, kind, bad_extra=bad)
                 judge.add_event(o, {"site": SITE[kind], "case": f"damage {mcls} {rk}", "cls": "damage", "mut": mut,
@@ -818,6 +834,52 @@ def loose_bomb_results(ctx, judge, cases, results):
     some = next((t for t, c in zip(table, cases) if c["enc"] == "newstyle" and c["cap"] and c["size"] > c["cap"]), None)
     if some:
         ctx.sample({"kind": "loose-object bomb", **some})
+
+
+# --------------------------------------------------------------------------- failed transfer: deepening fetch damaged in transit
+FETCH_ENTRIES = ("client", "porcelain")
+FETCH_SITE = {"client": "dulwich/client.py:GitClient.fetch", "porcelain": "dulwich/porcelain:fetch"}
+
+
+def fetch_cases(ctx, base):
+    """a depth-1 clone is deepened (depth 2) over an in-process git:// server through TCPGitClient.fetch and through
+    porcelain.fetch; one bit of the pack stream is flipped, or the stream is cut, at every `step`-th position (and at
+    each of the last 20 bytes)."""
+    parts = ctx.pick(6, 8)
+    return [{"id": base + i, "kind": "fetch", "entry": e, "step": ctx.pick(4, 1), "part": p, "parts": parts}
+            for i, (e, p) in enumerate((e, p) for e in FETCH_ENTRIES for p in range(parts))]
+
+
+def fetch_results(ctx, judge, cases, results):
+    n = 0
+    outcomes = {}
+    for c in cases:
+        r = results[c["id"]]
+        site = FETCH_SITE[c["entry"]]
+        if r.get("killed"):
+            judge.add_event(dict(KILLED_OBS), {"site": site, "case": "fetch depth=2 damaged in transit", "cls": "fetch", "replay": {"case": c}, "ev": r})
+            continue
+        for ev in r["events"]:
+            n += 1
+            # accepted: then the repository must be exactly what the undamaged transfer produces
+            bad = 1 if (ev["outcome"] == "ok" and not ev["as_good"]) else 0
+            o = judge.obs(ev, "disk.add_pack", bad_extra=bad)
+            o["rawpath"] = False
+            mut = ev["mut"]
+            judge.add_event(o, {"site": site, "case": f"fetch depth=2 pack {mut[0]} in transit", "cls": "fetch",
+                                "mut": f"{mut[0]}@{mut[1]}" + (f".{mut[2]}" if mut[0] == "bit" else "") + f" of {r['pack_len']}",
+                                "replay": {"case": dict(c, mut=mut)},
+                                "ev": {k: ev.get(k) for k in ("path", "outcome", "exc", "msg", "bad")} | {"changed": sorted(set(ev["pre"]) ^ set(ev["post"]))[:8]}})
+            ctx.nontrivial(("fetch", c["entry"], tuple(mut)))
+            k = f"{c['entry']}:{ev['outcome']}:{ev.get('exc')}"
+            outcomes[k] = outcomes.get(k, 0) + 1
+    ctx.count(n)
+    ctx.cov["damaged_fetches"] = {"executions": n, "outcomes": outcomes}
+    some = next((results[c["id"]] for c in cases if not results[c["id"]].get("killed") and results[c["id"]]["events"]), None)
+    if some:
+        e = some["events"][0]
+        ctx.sample({"kind": "damaged deepening fetch", "mut": e["mut"], "outcome": f"{e['outcome']}:{e.get('exc')}",
+                    "state_before": [x for x in e["pre"] if x.startswith("file:")], "changed": sorted(set(e["pre"]) ^ set(e["post"]))})
 
 
 # --------------------------------------------------------------------------- (c) fault injection into the transaction
@@ -964,8 +1026,9 @@ def run(ctx):
         bcases = [{"id": len(dcases), "kind": "bomb", "which": "pack-entry-overlong"}, {"id": len(dcases) + 1, "kind": "bomb", "which": "loose-overlong"}]
         rcases = tx_ref_cases(len(dcases) + 2)
         lcases = loose_bomb_cases(ctx, len(dcases) + 2 + len(rcases))
+        fcases = fetch_cases(ctx, len(dcases) + 2 + len(rcases) + len(lcases))
         t0 = time.time()
-        f_pool = tp.submit(run_pool, ctx, rcases + bcases + lcases + dcases, "dmg", half)
+        f_pool = tp.submit(run_pool, ctx, fcases + rcases + bcases + lcases + dcases, "dmg", half)
         shapes, neg, ex_a = f_pa.result()
         big = random_big_shapes(ctx, ctx.pick(60, 3000))
         acases, ameta = attack_cases(shapes, neg, big)
@@ -979,6 +1042,7 @@ def run(ctx):
         ctx.log(f"byte-level damage: {len(dcases)} mutated artefacts, {nexec} reads/ingestions (done {time.time() - t0:.1f}s after start)")
         bomb_results(ctx, judge, bcases, dres)
         loose_bomb_results(ctx, judge, lcases, dres)
+        fetch_results(ctx, judge, fcases, dres)
         tx_fault_part(ctx, judge, {c["id"]: (c, dres[c["id"]]) for c in rcases})
         f_ing.result()
         f_git.result()
@@ -1003,6 +1067,11 @@ def run(ctx):
         "repeated access: every damaged packed-refs / index / pack index / commit-graph / multi-pack-index / bitmap and every installed attack or damaged pack is also "
         "asked the same questions twice on ONE long-lived handle (DiskRefsContainer, Index, DiskObjectStore, Pack), packed-refs followed by add_packed_refs: after a failed "
         "access the repeat must fail again or give the intact answer (RepeatObs); the first-access-only length/checksum test of Pack.data is tolerated because the repeat returns correct objects",
+        "failed transfer: a deepening fetch (depth 2 on a depth-1 clone) over an in-process git:// server through TCPGitClient.fetch and porcelain.fetch, the pack "
+        "stream damaged in transit at sampled (thorough: all) positions; FailedIngestInvisible is judged on the visible objects AND every file of the control directory "
+        "outside objects/ (shallow, refs, packed-refs, HEAD, FETCH_HEAD, config); clone, pull, unshallow, HTTP and SSH transports are not driven",
+        "a multi-pack-index is judged by 'object served hashes to the name asked for' for every object (also with each object's offset redirected to another object's); "
+        "loose objects are judged the same way through store[...], get_raw and ShaFile.from_path",
         "a failing unlink of what the transaction itself installed (rollback) or of a lock file is not injected; leftover tmp_pack_*/tmp*.pack/.pack-without-.idx files are reported, not alarmed on",
         "SHA-1, zlib and CRC-32 come from the Python standard library (projection); attack deltas are valid deltas built by the harness; pure-Python dulwich (extension modules blocked)",
     ]
@@ -1026,6 +1095,11 @@ def replay(ctx, path):
         ev = r["event"]
         print("visible before:", len(ev["pre"]), "after:", len(ev["post"]), "bad:", ev["bad"], "junk:", ev["junk"])
         tx_add(ctx, judge, c, r, inp)
+    elif c["kind"] == "fetch":
+        r = run_pool(ctx, [c], "replay", nworkers=1)
+        print("re-executed:", json.dumps([{k: e.get(k) for k in ("mut", "outcome", "exc", "msg", "as_good")} | {"changed": sorted(set(e["pre"]) ^ set(e["post"]))}
+                                          for e in r[0].get("events", [])], indent=1)[:3000])
+        fetch_results(ctx, judge, [c], r)
     elif c["kind"] == "loosebomb":
         r = run_pool(ctx, [c], "replay", nworkers=1)
         print("re-executed:", json.dumps(r[0], indent=1, default=repr)[:2000])
